@@ -654,9 +654,10 @@ impl PacketReceiver for IceConn {
                                 *probation_guard = None; // drop state
                                 drop(probation_guard);
 
-                                if win_addr != current_remote {
-                                    *self.remote_addr.write() = win_addr;
-                                }
+                                // `current_remote` is stale here: the provisional
+                                // update above may already have moved remote_addr to
+                                // this packet's source, which need not be the winner.
+                                *self.remote_addr.write() = win_addr;
                                 self.rtp_latched.store(true, Ordering::Relaxed);
                                 trace!(
                                     "IceConn: RTP latched to {} after probation \
